@@ -1,10 +1,109 @@
 import CoxeterVerif.Driver.Proto
+import CoxeterVerif.Model.Inside3D
+import CoxeterVerif.Spec.Inside3D
 
 namespace OpsC05
+open Inside3D
+
+namespace Rd5
+def plane {α} [Codec α] (c : Ctx) : Rd (Plane α) := do
+  let n ← Rd.v3 c; let d ← Rd.sc c; pure ⟨n, d⟩
+/-- sparse weights: list of (vertex index, weight); returns (weights, selected vertices) -/
+def sparse {α} [Scalar α] [Codec α] (c : Ctx) (V : Array (V3 α)) : Rd (List α × List (V3 α)) := do
+  let pairs ← Rd.list c (do let i ← Rd.nat c; let w ← Rd.sc (α := α) c; pure (i, w))
+  pure (pairs.map (·.2), pairs.map fun iw => V.getD iw.1 V3.zero)
+end Rd5
 
 /-- driver ops of C05. `none` = unknown op. -/
 def run (α : Type) [Scalar α] [Codec α] (op : String) (c : Ctx) : Option (Rd String) :=
   match op with
+  | "in3.cp" => some do
+      -- in: eqs, points ; out: one bool per point
+      let eqs : List (Plane α) ← Rd.list c (Rd5.plane c)
+      let pts : List (V3 α) ← Rd.list c (Rd.v3 c)
+      pure (Out.bools (CP.isInside eqs pts))
+  | "in3.poly" => some do
+      -- in: surface triangles, points ; out: one bool per point, then the winding sums
+      let S : List (Tri α) ← Rd.list c (Rd.tri c)
+      let pts : List (V3 α) ← Rd.list c (Rd.v3 c)
+      pure s!"{Out.bools (Poly.isInside S pts)} {Out.ints (pts.map (Poly.windingSum S))}"
+  | "in3.sphere" => some do
+      let r : α ← Rd.sc c
+      let cen : V3 α ← Rd.v3 c
+      let pts : List (V3 α) ← Rd.list c (Rd.v3 c)
+      pure (Out.bools (Sphere.isInside r cen pts))
+  | "in3.ellipsoid" => some do
+      let a : α ← Rd.sc c; let b : α ← Rd.sc c; let cc : α ← Rd.sc c
+      let cen : V3 α ← Rd.v3 c
+      let pts : List (V3 α) ← Rd.list c (Rd.v3 c)
+      pure (Out.bools (Ellipsoid.isInside a b cc cen pts))
+  | "in3.sphero" => some do
+      -- in: r, eqs, faces (vertex lists), flag (0: prisms follow / else: construction raised), points
+      let r : α ← Rd.sc c
+      let eqs : List (Plane α) ← Rd.list c (Rd5.plane c)
+      let faces : List (List (V3 α)) ← Rd.list c (Rd.list c (Rd.v3 c))
+      let flag ← Rd.int c
+      let prisms : Except String (List (List (Plane α))) ←
+        if flag == 0 then do
+          let ps ← Rd.list c (Rd.list c (Rd5.plane c))
+          pure (Except.ok ps)
+        else pure (Except.error "PrismConstruction")
+      let pts : List (V3 α) ← Rd.list c (Rd.v3 c)
+      match Sphero.isInside r eqs faces prisms pts with
+      | .ok bs =>
+        let singles := match prisms with
+          | .ok ps => pts.map (Sphero.isInside1 r eqs faces ps)
+          | .error _ => []
+        pure s!"{Out.bools bs} {Out.bools singles}"
+      | .error e => pure s!"E:{e}"
+  | "spec.in3.hull" => some do
+      -- in: V, cases (sparse weights, p) ; out per case: min w, Σw, (comb − Σw·p)(3)
+      let V : List (V3 α) ← Rd.list c (Rd.v3 c)
+      let Va := V.toArray
+      let cases ← Rd.list c (do let wv ← Rd5.sparse c Va; let p ← Rd.v3 (α := α) c; pure (wv, p))
+      pure (" ".intercalate (cases.map fun cs =>
+        let r := Spec.In3D.hullCert cs.1.1 cs.1.2 cs.2
+        s!"{Out.sc r.1} {Out.sc r.2.1} {Out.v3 r.2.2}"))
+  | "spec.in3.plane" => some do
+      -- in: V, cases (n, d, p) ; out per case: max_v (n·v+d), n·p+d
+      let V : List (V3 α) ← Rd.list c (Rd.v3 c)
+      let cases ← Rd.list c (do let n ← Rd.v3 (α := α) c; let d ← Rd.sc (α := α) c; let p ← Rd.v3 (α := α) c; pure (n, d, p))
+      pure (" ".intercalate (cases.map fun cs =>
+        let r := Spec.In3D.planeCert cs.1 cs.2.1 V cs.2.2
+        s!"{Out.sc r.1} {Out.sc r.2}"))
+  | "spec.in3.tets" => some do
+      -- in: tets, cases (indices of candidate tets, p) ; out per case: number of candidate tets containing p
+      let Ts : List (Tet α) ← Rd.list c (Rd.tet c)
+      let Ta := Ts.toArray
+      let cases ← Rd.list c (do let idx ← Rd.list c (Rd.nat c); let p ← Rd.v3 (α := α) c; pure (idx, p))
+      pure (Out.ints (cases.map fun cs =>
+        let sel := cs.1.filterMap fun i => Ta[i]?
+        (Spec.In3D.countTets sel cs.2 : Int)))
+  | "spec.in3.ball" => some do
+      let r : α ← Rd.sc c
+      let cen : V3 α ← Rd.v3 c
+      let pts : List (V3 α) ← Rd.list c (Rd.v3 c)
+      pure (Out.bools (pts.map (Spec.In3D.inBall r cen)))
+  | "spec.in3.ellipsoid" => some do
+      let a : α ← Rd.sc c; let b : α ← Rd.sc c; let cc : α ← Rd.sc c
+      let cen : V3 α ← Rd.v3 c
+      let pts : List (V3 α) ← Rd.list c (Rd.v3 c)
+      pure (Out.bools (pts.map (Spec.In3D.inEllipsoid a b cc cen)))
+  | "spec.in3.near" => some do
+      -- in: V, cases (sparse weights of q, p) ; out per case: min w, Σw, |p − q|²
+      let V : List (V3 α) ← Rd.list c (Rd.v3 c)
+      let Va := V.toArray
+      let cases ← Rd.list c (do let wv ← Rd5.sparse c Va; let p ← Rd.v3 (α := α) c; pure (wv, p))
+      pure (" ".intercalate (cases.map fun cs =>
+        let r := Spec.In3D.nearCert cs.1.1 cs.1.2 cs.2
+        s!"{Out.sc r.1} {Out.sc r.2.1} {Out.sc r.2.2}"))
+  | "spec.in3.far" => some do
+      -- in: V, cases (q, p) ; out per case: max_v (p−q)·(v−q), |p − q|²
+      let V : List (V3 α) ← Rd.list c (Rd.v3 c)
+      let cases ← Rd.list c (do let q ← Rd.v3 (α := α) c; let p ← Rd.v3 (α := α) c; pure (q, p))
+      pure (" ".intercalate (cases.map fun cs =>
+        let r := Spec.In3D.farCert cs.1 V cs.2
+        s!"{Out.sc r.1} {Out.sc r.2}"))
   | _ => none
 
 end OpsC05
